@@ -1260,7 +1260,14 @@ impl NamingActor {
             NamingRaftReq::RemoveInstance(instance_key) => {
                 let service_key = instance_key.get_service_key();
                 let instance_short_key = instance_key.get_short_key();
-                self.remove_instance(&service_key, &instance_short_key, None);
+                // 只移除永久实例；已切换为临时实例的注册信息不属于raft数据，不能被移除
+                let is_ephemeral = self
+                    .get_instance(&service_key, &instance_short_key)
+                    .map(|i| i.ephemeral)
+                    .unwrap_or(false);
+                if !is_ephemeral {
+                    self.remove_instance(&service_key, &instance_short_key, None);
+                }
                 Ok(NamingRaftResult::None)
             }
         }
